@@ -482,7 +482,7 @@ func execCodec(h *caseHdr, ev M) any {
 	out := M{"kind": "ok", "panic": false, "where": "", "msg": "", "merr": "", "uerr": "", "bytes": []any{}, "back": []any{},
 		"backUTC": true, "laws": []any{}, "desc": M{"have": false}, "cross": M{"have": false}, "sane": true,
 		"json": []any{}, "jsonable": M{"finite": true, "times": true, "utf8": true},
-		"byval": M{"have": false}}
+		"byval": M{"have": false}, "aliasIn": false, "aliasOut": false}
 	var gt reflect.Type
 	var in reflect.Value
 	p := instanceFor(h)
@@ -510,6 +510,10 @@ func execCodec(h *caseHdr, ev M) any {
 		out["back"] = abs.Project(h.T, back.Elem())
 		out["sane"] = !abs.Corrupt
 		out["backUTC"] = allUTC(back.Elem())
+		// C11, observed directly: nothing reachable from the decoded value (spare capacity included) lies in the input,
+		// and the bytes Marshal returned do not lie in the value
+		out["aliasIn"] = overlaps(back.Elem(), data)
+		out["aliasOut"] = overlaps(in.Elem(), data)
 		// the value given to Marshal must be unchanged (C11 observes this on every case)
 		out["srcAfter"] = abs.Project(h.T, in.Elem())
 	})
